@@ -181,6 +181,7 @@ theorem sl_left (a b : Bytes) (i j : Nat) (hj : j ≤ a.length) : sl (a ++ b) i 
 * TCP: the data offset counts the header with its padded options and the checksum field is RFC 793's (`tcpCsumSpec`, C14);
 * ICMP: the message sums to zero. -/
 def Valid : Option IPCtx → Pkt → Prop
+  | _, .eth _ n => Valid none n
   | _, .vlan _ n => Valid none n
   | _, .ipv4 h n =>
     rfc1071 ((ser none (.ipv4 h n)).take (4 * h.hl)) = 0 ∧
@@ -245,7 +246,7 @@ theorem valid_of_wf (p : Pkt) : ∀ ctx, WFp ctx p → Valid ctx p := by
   | nil => intro ctx _; cases ctx <;> simp [Valid]
   | unparsed c r => intro ctx _; cases ctx <;> simp [Valid]
   | unmodelled c r => intro ctx _; cases ctx <;> simp [Valid]
-  | eth h n ih => intro ctx _; cases ctx <;> simp [Valid]
+  | eth h n ih => intro ctx hw; simp [WFp] at hw
   | arp h n ih => intro ctx _; cases ctx <;> simp [Valid]
   | echo h n ih => intro ctx _; cases ctx <;> simp [Valid]
 
